@@ -540,43 +540,43 @@ func splitComma(s string) []string {
 
 // ruleWriteErrGuard is shared by R-C04-6 and R-C13-4.
 func ruleWriteErrGuard(c *Ctx) {
-		wr := c.Fn(pJ, "Connection", "write")
-		g := wr.Graph()
-		writeErr := c.Field(pJ, "inFlightState", "writeErr")
-		errIs := c.Std("errors", "", "Is")
-		eRej := c.Obj(pJ, "ErrRejected")
-		ctxParam := wr.CtxParam()
-		n := 0
-		for _, s := range c.uifSites(wr) {
-			if len(s.Lit.FieldWrites(s.Lit.Body, writeErr, false)) == 0 {
-				continue
-			}
-			n++
-			guards := g.GuardsAt(g.VertexOf(s.Call))
-			ctxAlive := hasAtom(guards, func(a Atom) bool {
-				return AtomSaysNil(a, true, func(e ast.Expr) bool {
-					ce, ok := ast.Unparen(e).(*ast.CallExpr)
-					if !ok {
-						return false
-					}
-					sel, ok := ast.Unparen(ce.Fun).(*ast.SelectorExpr)
-					return ok && sel.Sel.Name == "Err" && wr.ObjOf(sel.X) == ctxParam
-				})
-			})
-			notRejected := hasAtom(guards, func(a Atom) bool {
-				ce, ok := a.E.(*ast.CallExpr)
-				return ok && !a.Val && wr.IsCallTo(ce, errIs) && len(ce.Args) == 2 && wr.ObjOf(ce.Args[1]) == eRej
-			})
-			// … and only for a write that actually failed (the error tested is the writer's)
-			failed := hasAtom(guards, func(a Atom) bool {
-				return AtomSaysNil(a, false, func(e ast.Expr) bool {
-					o, ok := wr.ObjOf(e).(*types.Var)
-					return ok && !o.IsField() && types.Identical(o.Type(), types.Universe.Lookup("error").Type())
-				})
-			})
-			c.Check(failed, "write:broken-only-after-a-failed-write", wr, s.Call, "writeErr is set only when the write returned a non-nil error (guards: %s); without that test every successful write would cancel all in-flight handlers", atomsString(guards))
-			c.Check(ctxAlive && notRejected, "write:broken-only-if-ctx-alive-and-not-rejected", wr, s.Call,
-				"writeErr (which cancels every handler and refuses all further calls) is set only under ctx.Err() == nil && !errors.Is(err, ErrRejected) (guards: %s): a cancel notice that times out or is rejected must leave the session usable", atomsString(guards))
+	wr := c.Fn(pJ, "Connection", "write")
+	g := wr.Graph()
+	writeErr := c.Field(pJ, "inFlightState", "writeErr")
+	errIs := c.Std("errors", "", "Is")
+	eRej := c.Obj(pJ, "ErrRejected")
+	ctxParam := wr.CtxParam()
+	n := 0
+	for _, s := range c.uifSites(wr) {
+		if len(s.Lit.FieldWrites(s.Lit.Body, writeErr, false)) == 0 {
+			continue
 		}
-		c.Pin("writeErr closure", n, 1)
+		n++
+		guards := g.GuardsAt(g.VertexOf(s.Call))
+		ctxAlive := hasAtom(guards, func(a Atom) bool {
+			return AtomSaysNil(a, true, func(e ast.Expr) bool {
+				ce, ok := ast.Unparen(e).(*ast.CallExpr)
+				if !ok {
+					return false
+				}
+				sel, ok := ast.Unparen(ce.Fun).(*ast.SelectorExpr)
+				return ok && sel.Sel.Name == "Err" && wr.ObjOf(sel.X) == ctxParam
+			})
+		})
+		notRejected := hasAtom(guards, func(a Atom) bool {
+			ce, ok := a.E.(*ast.CallExpr)
+			return ok && !a.Val && wr.IsCallTo(ce, errIs) && len(ce.Args) == 2 && wr.ObjOf(ce.Args[1]) == eRej
+		})
+		// … and only for a write that actually failed (the error tested is the writer's)
+		failed := hasAtom(guards, func(a Atom) bool {
+			return AtomSaysNil(a, false, func(e ast.Expr) bool {
+				o, ok := wr.ObjOf(e).(*types.Var)
+				return ok && !o.IsField() && types.Identical(o.Type(), types.Universe.Lookup("error").Type())
+			})
+		})
+		c.Check(failed, "write:broken-only-after-a-failed-write", wr, s.Call, "writeErr is set only when the write returned a non-nil error (guards: %s); without that test every successful write would cancel all in-flight handlers", atomsString(guards))
+		c.Check(ctxAlive && notRejected, "write:broken-only-if-ctx-alive-and-not-rejected", wr, s.Call,
+			"writeErr (which cancels every handler and refuses all further calls) is set only under ctx.Err() == nil && !errors.Is(err, ErrRejected) (guards: %s): a cancel notice that times out or is rejected must leave the session usable", atomsString(guards))
 	}
+	c.Pin("writeErr closure", n, 1)
+}
